@@ -189,9 +189,16 @@ def C34(ctx):
 L14_KEY = "verify_secp256k1 signature[0]"
 
 
+ANEMONE_KEY = "fast_aggregate_verify_bls12381_v1_anemone: first public key not validated (point at infinity)"
+
+
 def c48_key(o, case):
     s = case["s"]
     mu = s["mut"]
+    if mu["target"] == "craft":
+        if s["op"] == "bls.fast_anemone" and mu["kind"] == "bls.infPkAt" and mu["idx"] == 1:
+            return ANEMONE_KEY
+        return "crypto:%s:craft:%s" % (s["op"], mu["kind"])
     if s["op"] == "secp.verify" and mu["target"] == "sig" and mu["kind"] == "xor" and mu["region"] == "v":
         return L14_KEY
     return "crypto:%s:%s:%s:%s" % (s["op"], mu["target"], mu["kind"], mu["region"])
@@ -218,10 +225,21 @@ def C48(ctx):
     ctx.sample({"scenario": next(c for c in cases if c["s"]["op"] == "secp.verify" and c["s"]["mut"]["region"] == "v" and c["s"]["mut"]["mask"] == 1)})
     ctx.sample({"scenario": next(c for c in cases if c["s"]["op"] == "ed.verify" and c["s"]["mut"]["target"] == "none" and c["allowed"] == ["true"])})
     ctx.sample({"scenario": next(c for c in cases if c["s"]["op"] == "bls.agg" and len(c["s"]["pairs"]) == 3 and c["allowed"] == ["false"])})
-    outcomes = {}
+    # the algebraically degenerate family is complete in both tiers
+    crafted = collections.Counter((c["s"]["op"], c["s"]["mut"]["kind"]) for c in cases if c["s"]["mut"]["target"] == "craft")
+    for k, n in ((("ed.verify", "ed.torsion"), 384), (("ed.verify", "ed.torsionR"), 64), (("ed.verify", "ed.torsionPk"), 16),
+                 (("ed.verify", "ed.sPlusL"), 6), (("secp.verify", "secp.twin"), 18), (("secp.recover", "secp.twin"), 18),
+                 (("secp.verify", "secp.r0"), 18), (("secp.recover", "secp.sn"), 18), (("bls.verify", "bls.infBoth"), 3),
+                 (("bls.agg", "bls.infPkAt"), 14), (("bls.fast", "bls.infPkAt"), 10), (("bls.fast_anemone", "bls.infPkAt"), 10)):
+        if crafted[k] < n:
+            raise ToolError("degenerate scenario family incomplete: %s has %d of %d scenarios" % (k, crafted[k], n))
+    ctx.sample({"scenario": next(c for c in cases if c["s"]["mut"]["kind"] == "ed.torsion" and c["s"]["mut"]["idx"] == 0 and c["s"]["mut"]["mask"] == 0)})
+    outcomes, craft_outcomes = {}, {}
     for sd in ([ctx.seed] if q else [ctx.seed, ctx.seed + 1, ctx.seed + 2]):
         _, _, extra = replay_cases(ctx, "crypto", cases, ["seed=%d" % sd], "scenario", key=c48_key)
         outcomes = extra[0]["outcomes"] if extra else outcomes
+        craft_outcomes = extra[0].get("craft_outcomes", {}) if extra else craft_outcomes
+    twin = sum(v for k, v in craft_outcomes.items() if k.startswith("secp.recover:secp.twin:k"))
 
     def corrupt(cs):
         sel = [next(c for c in cs if c["s"]["op"] == "bls.agg" and c["allowed"] == ["true"]),
@@ -236,14 +254,22 @@ def C48(ctx):
         raise ToolError("binding self-test of crypto: %d of 3 corruptions reported" % n)
     distinct = len({json.dumps(c["s"], sort_keys=True) for c in cases if c["s"]["mut"]["target"] != "none" or c["s"]["op"].startswith("bls.")
                     or c["s"]["k"] != c["s"]["vk"] or c["s"]["m"] != c["s"]["vm"]})
-    return {"exhaustive": True, "distinct_nontrivial": distinct, "impl_outcomes": outcomes,
+    return {"exhaustive": True, "distinct_nontrivial": distinct, "impl_outcomes": outcomes, "impl_outcomes_degenerate": craft_outcomes,
+            "info_secp_recover_high_s_twin": "verify_and_recover_secp256k1 returned the signer for the high-s twin (r, n - s, recovery id "
+                                             "with flipped parity) of an honest signature in %d scenarios (ECDSA malleability: the same key "
+                                             "and message, another encoding; verify_secp256k1 refuses the twin; at transaction level the "
+                                             "signed-intent hash covers the signature bytes, C33)" % twin,
             "rule": "scenarios enumerated by TLC: 4 single-signature operations (verify_secp256k1, verify_and_recover_secp256k1, "
                     "verify_ed25519, verify_bls12381_v1) x signer key x signed message x verification key x verification message "
                     "(3 each), and for matching triples every single-byte xor (%s) of signature / public key / message by region "
                     "(secp v|r|s, ed R|S, bls head|body ...), truncated, extended, all-zero and swapped encodings; BLS aggregate_verify / "
                     "fast_aggregate_verify (v1 and anemone): every list of <= 2 pairs against every list of 1..2 components over 2 keys "
                     "x 2 messages, 3-component families (one wrong message / key, swapped, duplicates, permutations, missing), empty "
-                    "lists, byte changes of the aggregate; keys and messages instantiated with fresh seeded real keys; distinct = "
+                    "lists, byte changes of the aggregate; the algebraically degenerate family (both tiers, complete): Ed25519 8 small-order "
+                    "public keys x 8 small-order R x s in {0, 1, L} x 2 messages, small-order R / public key against honest parts, s + L; "
+                    "secp256k1 r / s = 0 / n and the high-s twin x recovery ids 0..3 / honest / parity-flipped, verify and recover; "
+                    "BLS12-381 infinity public key / signature alone and at every position of aggregate / fast-aggregate (v1, anemone) "
+                    "lists with the signature of the remaining keys; keys and messages instantiated with fresh seeded real keys; distinct = "
                     "distinct scenarios other than the honest matching triple"
                     % ("3 positions x 3 masks per region" if q else "every byte position x 4 masks, 3 seeds")}
 
@@ -263,6 +289,12 @@ def C33(ctx):
     for cls in ("DuplicateSigner", "InvalidNotarySignature", "NotaryDuplicatesSigner", "InvalidIntentSignature", "TooManySigs"):
         if errs[cls] == 0:
             raise ToolError("vacuous configuration set: no case violating " + cls)
+    # family E (degenerate Ed25519 keys: small-order public key + key-less signature) is complete in both tiers
+    deg = collections.Counter(("notary" if c["notary"] >= 10 else "subintent" if any(s["k"] >= 10 for l in c["sigs"][1:] for s in l) else "root", c["ver"])
+                              for c in cases if c["notary"] >= 10 or any(s["k"] >= 10 for l in c["sigs"] for s in l))
+    for k, n in ((("root", 1), 48), (("root", 2), 16), (("subintent", 2), 64), (("notary", 1), 64), (("notary", 2), 64)):
+        if deg[k] < n:
+            raise ToolError("degenerate key family incomplete: %s has %d of %d configurations" % (k, deg[k], n))
     valid = [c for c in cases if all(a["ok"] for a in c["allowed"])]
     undecided = [c for c in cases if len({a["ok"] for a in c["allowed"]}) == 2]
     if len(valid) < 100 or not undecided:
@@ -336,7 +368,9 @@ def C33(ctx):
             "rule": "signer configurations enumerated by TLC: every list of <= %d honest signatures of 4 keys (2 secp256k1, 2 Ed25519) x "
                     "notary x notary_is_signatory x V1 (notary may duplicate a signer on/off) / V2 with a subintent; one signature over a "
                     "wrong hash (other intent, signed-intent, stale, unrelated) on root or subintent; notary signature by right / wrong key "
-                    "over right / wrong hash; count limits - each built as a real notarized transaction and validated; plus %s of the raw "
+                    "over right / wrong hash; count limits; degenerate Ed25519 keys (each of the 8 small-order points as public key with the "
+                    "key-less signature R = same point / neutral element, s = 0) as root signer, subintent signer and notary, V1 and "
+                    "V2 - each built as a real notarized transaction and validated; plus %s of the raw "
                     "payload of %d valid transactions xor 0x01 / 0x80, observed through prepare + validate and decided by TraceTxSigs; "
                     "distinct = distinct configurations" % (2 if q else 3, "3 bytes per region and every structure byte" if q else "every byte", len(bases))}
 
@@ -455,10 +489,13 @@ PROPS = {
                      "The harness performs the scenario with real secp256k1, Ed25519 and BLS12-381 keys and reports every outcome "
                      "that is not allowed.",
                 note="Known finding (lead L14): verify_secp256k1 only range-checks the recovery id, so changing signature byte 0 to "
-                     "another id in 0..3 still verifies (reported with key 'verify_secp256k1 signature[0]'). Not in scope: multi-byte "
-                     "algebraic transformations such as ECDSA (r, n-s) malleability in verify_and_recover_secp256k1 and the "
-                     "point-at-infinity first key accepted by the anemone fast-aggregate variant (outside the single-byte quantifier of "
-                     "the statement). Curve arithmetic itself is trusted (crypto crates); quick = 3 byte positions per region."),
+                     "another id in 0..3 still verifies (reported with key 'verify_secp256k1 signature[0]'). The degenerate family (small-order "
+                     "Ed25519 keys / R, s = 0 / 1 / L, secp256k1 r / s = 0 / n, BLS infinity key / signature) must never verify. Two "
+                     "observations on the unchanged code: the anemone fast-aggregate variant does not validate the FIRST public key, so "
+                     "[infinity, k2, ..] verifies the aggregate of the remaining keys (reported with its own key); "
+                     "verify_and_recover_secp256k1 returns the signer for the high-s twin (r, n - s) of an honest signature - the same "
+                     "key and message in another encoding, allowed by the model for recovery and recorded as information (multi-byte, outside "
+                     "the single-byte quantifier). Curve arithmetic itself is trusted (crypto crates); quick = 5 byte positions per region."),
     "C33": dict(fn=C33, level="model_checking", design_ref="5/C33",
                 technique="TLA+ spec TxSigs over CryptoIdeal (hash terms, signature provenance, recovered keys): TLC checks signer-set "
                           "soundness / completeness and the mutation law on every configuration and emits the allowed outcomes; replay "
